@@ -4,6 +4,7 @@ package main
 
 import (
 	"fmt"
+	"os"
 	"go/constant"
 	"go/token"
 	"go/types"
@@ -121,6 +122,13 @@ type Exec struct {
 	fresh0   int // cells with id > fresh0 were allocated during the run
 	cover    map[*ssa.Function]bool
 	mergedFacts []*Term
+	globals     map[string]*ssa.Global
+	globalVals  map[string]*Term
+	initDone    map[*ssa.Package]bool
+	inInit      bool
+	discovering int
+	nFrame      int
+	frameOff    bool
 	trustedUsed []string
 }
 
@@ -131,7 +139,7 @@ type iterRole struct {
 }
 
 func NewExec(c *Ctx, p *Program) *Exec {
-	return &Exec{c: c, prog: p, maxSteps: 400000, iterSrc: map[*Term]iterRole{}, cellType: map[int]types.Type{}, cover: map[*ssa.Function]bool{}}
+	return &Exec{c: c, prog: p, maxSteps: 400000, iterSrc: map[*Term]iterRole{}, cellType: map[int]types.Type{}, cover: map[*ssa.Function]bool{}, globals: map[string]*ssa.Global{}, globalVals: map[string]*Term{}, initDone: map[*ssa.Package]bool{}}
 }
 
 func NewState() *State {
@@ -239,9 +247,8 @@ type Frame struct {
 	prev   *ssa.BasicBlock
 	defers []deferred
 	visits map[*ssa.BasicBlock]int
-	loops  *loopInfo
-	inLoop map[*ssa.BasicBlock]*loopCtx
-	depthMark int
+	loopsActive map[*ssa.Call]*loopCtx
+	skipPhi     *ssa.BasicBlock
 }
 
 type deferred struct {
@@ -261,11 +268,8 @@ func (f *Frame) clone() *Frame {
 	for k, v := range f.visits {
 		n.visits[k] = v
 	}
-	if f.inLoop != nil {
-		n.inLoop = make(map[*ssa.BasicBlock]*loopCtx, len(f.inLoop))
-		for k, v := range f.inLoop {
-			n.inLoop[k] = v
-		}
+	if f.loopsActive != nil {
+		n.loopsActive = cloneLoops(f.loopsActive)
 	}
 	return &n
 }
@@ -295,6 +299,7 @@ func (x *Exec) val(fr *Frame, v ssa.Value) *Term {
 	case *ssa.Function:
 		return x.c.Clo(v, x.c.SortOf(v.Signature))
 	case *ssa.Global:
+		x.globals[v.String()] = v
 		return x.c.mk(&Term{Op: "global", Name: v.String(), Sort: x.c.Ref, Aux: x.c.SortOf(v.Type().(*types.Pointer).Elem())})
 	case *ssa.Builtin:
 		panic("builtin used as value: " + v.Name())
@@ -376,11 +381,86 @@ func (x *Exec) load(st *State, addr *Term, s *Sort) *Term {
 		if v, ok := st.heap["global:"+addr.Name]; ok {
 			return v
 		}
+		if v := x.globalInit(addr); v != nil {
+			return v
+		}
 		return c.Const("glob_"+shortName(addr.Name), addr.Aux)
 	case "ite":
 		return c.Ite(addr.Args[0], x.load(st, addr.Args[1], s), x.load(st, addr.Args[2], s))
 	}
 	return c.Select(x.heapOf(st, s), addr)
+}
+
+// globalInit returns the initial value of a package-level variable, obtained
+// by executing the package's init function once (other packages' init calls
+// are skipped).  Assumption: package-level variables keep their initial value.
+func (x *Exec) globalInit(addr *Term) *Term {
+	if v, ok := x.globalVals[addr.Name]; ok {
+		return v
+	}
+	g := x.globals[addr.Name]
+	if g == nil || g.Pkg == nil {
+		return nil
+	}
+	if g.Name() == "init$guard" {
+		return x.c.False
+	}
+	if x.initDone[g.Pkg] {
+		return nil
+	}
+	x.initDone[g.Pkg] = true
+	fn := g.Pkg.Func("init")
+	if fn == nil || fn.Blocks == nil {
+		return nil
+	}
+	savedIn := x.inInit
+	x.inInit = true
+	savedStack, savedSteps, savedPaths := x.stack, x.steps, x.paths
+	x.stack = nil
+	st := NewState()
+	fr := &Frame{fn: fn, env: map[ssa.Value]*Term{}, visits: map[*ssa.BasicBlock]int{}}
+	var outs []Outcome
+	func() {
+		defer func() {
+			if r := recover(); r != nil {
+				outs = nil
+			}
+		}()
+		outs = x.runFrom(fr, st, fn.Blocks[0], 0)
+	}()
+	x.stack, x.steps, x.paths = savedStack, savedSteps, savedPaths
+	x.inInit = savedIn
+	if os.Getenv("GOVC_DEBUG") != "" {
+		fmt.Fprintf(os.Stderr, "init %s: %d outcomes\n", g.Pkg.Pkg.Path(), len(outs))
+		for _, o := range outs {
+			fmt.Fprintf(os.Stderr, "   kind=%d reason=%s val=%v\n", o.kind, o.reason, o.val != nil && o.kind == OPanic)
+			if o.kind == OPanic {
+				fmt.Fprintf(os.Stderr, "   panic %s\n", x.c.Show(o.val))
+			}
+		}
+	}
+	if len(outs) != 1 {
+		x.noteTrusted("package " + g.Pkg.Pkg.Path() + ": init outside the supported subset, its variables are unconstrained")
+		return nil
+	}
+	fin := outs[0].st
+	for k, v := range fin.heap {
+		if strings.HasPrefix(k, "global:") {
+			x.globalVals[strings.TrimPrefix(k, "global:")] = v
+		}
+	}
+	if outs[0].kind != ORet {
+		x.noteTrusted("package " + g.Pkg.Pkg.Path() + ": init only partially executed (" + outs[0].reason + ")")
+	}
+	// variables never assigned by init hold their zero value
+	for _, m := range g.Pkg.Members {
+		if gg, ok := m.(*ssa.Global); ok {
+			if _, ok := x.globalVals[gg.String()]; !ok && outs[0].kind == ORet {
+				x.globalVals[gg.String()] = x.c.Zero(gg.Type().(*types.Pointer).Elem())
+			}
+		}
+	}
+	return x.globalVals[addr.Name]
 }
 
 func (x *Exec) loadArr(st *State, a *Term, elem *Sort) *Term {
@@ -419,6 +499,7 @@ func (x *Exec) store(st *State, addr *Term, v *Term, pos token.Pos, fn string) {
 		h := x.heapOf(st, v.Sort)
 		st.heap[v.Sort.Name] = c.Store(h, addr, v)
 		st.writes = append(st.writes, WriteRec{addr: addr, what: "store *" + v.Sort.Name, pos: pos, fn: fn})
+		x.frameOblig(st, addr, "store through pointer", fn)
 	}
 }
 
@@ -438,7 +519,38 @@ func (x *Exec) storeArr(st *State, a *Term, arr *Term, elem *Sort, pos token.Pos
 		h := x.arrsOf(st, elem)
 		st.arrs[elem.Name] = c.Store(h, a, arr)
 		st.writes = append(st.writes, WriteRec{addr: a, what: "store []" + elem.Name, pos: pos, fn: fn})
+		x.frameOblig(st, a, "write to slice element", fn)
 	}
+}
+
+// frameOblig: a write to memory that is not path-private must hit memory
+// allocated after the function under contract started (C04 frame condition).
+func (x *Exec) frameOblig(st *State, ref *Term, what, fn string) {
+	if x.frameOff || x.discovering > 0 || x.inInit {
+		return
+	}
+	x.nFrame++
+	x.side = append(x.side, SideOblig{Name: fmt.Sprintf("frame:%s#%d", what, x.nFrame), PC: x.pcOf(st), Goal: x.c.Not(x.isOldRef(ref)), Note: "in " + fn})
+}
+
+// isOldRef: the reference existed when the function under contract started.
+func (x *Exec) isOldRef(p *Term) *Term {
+	c := x.c
+	switch p.Op {
+	case "cell":
+		return c.BoolLit(p.Idx <= x.fresh0)
+	case "faddr", "iaddr":
+		return x.isOldRef(p.Args[0])
+	case "global":
+		return c.True
+	case "ite":
+		return c.Ite(p.Args[0], x.isOldRef(p.Args[1]), x.isOldRef(p.Args[2]))
+	}
+	return c.And(c.Cmp("<", c.IntLit(0), p), c.Cmp("<", p, c.AllocFrontier()))
+}
+
+func (x *Exec) entryArrs(key string, s *Sort) *Term {
+	return x.c.Const("A0_"+sanitize(key), s)
 }
 
 func (x *Exec) newCell(st *State, v *Term, t types.Type) *Term {
@@ -463,6 +575,9 @@ func (x *Exec) isNilRef(p *Term) *Term {
 // running functions
 
 func (x *Exec) callFunc(st *State, fn *ssa.Function, args []*Term, bindings []*Term) []Outcome {
+	if x.inInit && fn.Name() == "init" && len(args) == 0 {
+		return []Outcome{{st: st, kind: ORet, val: x.c.Ctor(x.c.Unit)}}
+	}
 	if outs, ok := x.intercept(st, fn, args); ok {
 		return outs
 	}
@@ -580,17 +695,11 @@ func (x *Exec) runFrom(fr *Frame, st *State, b *ssa.BasicBlock, i int) []Outcome
 					if !ok {
 						break
 					}
-					if _, havocked := fr.env[phi]; havocked && fr.inLoop != nil && fr.inLoop[b] != nil && fr.inLoop[b].justEntered {
-						continue
-					}
 					phis = append(phis, phi)
 					vals = append(vals, x.val(fr, phi.Edges[idx]))
 				}
 				for k, phi := range phis {
 					fr.env[phi] = vals[k]
-				}
-				if lc := fr.inLoop[b]; lc != nil {
-					lc.justEntered = false
 				}
 			}
 		}
@@ -766,6 +875,9 @@ func (x *Exec) runFrom(fr *Frame, st *State, b *ssa.BasicBlock, i int) []Outcome
 					return outs
 				}
 			case *ssa.Call:
+				if isLoopInv(ins.Common()) {
+					return x.loopCut(fr, st, ins, b, i)
+				}
 				outs := x.doCall(fr, st, ins.Common())
 				if len(outs) == 1 && outs[0].kind == ORet {
 					st = outs[0].st
